@@ -2515,8 +2515,15 @@ class CompressedCertificate(Certificate):
 
         try:
             if self.compression_algo == CertificateCompressionAlgorithm.zlib:
-                decompressed_msg = zlib.decompress(
-                    compressed_msg, 15, expected_length)
+                if not expected_length:
+                    raise ValueError("Empty certificate message")
+                # limit the output to what was declared, without allocating
+                # the declared size up front
+                decompressor = zlib.decompressobj(15)
+                decompressed_msg = decompressor.decompress(
+                    compressed_msg, expected_length)
+                if decompressor.unconsumed_tail or not decompressor.eof:
+                    raise ValueError("Message longer than declared")
             elif self.compression_algo == \
                     CertificateCompressionAlgorithm.brotli:
                 if compression_algo_impls["brotli_accepts_limit"]:
